@@ -271,10 +271,11 @@ class Check:
             if os.path.exists(fp):
                 fpfiles.append((label, fp))
             b = by_unit.setdefault(label, dict(unit=label, kind=u.get("kind", "gen"), shards=0, evaluations=0,
-                                               exhaustive=False, wall_s=0.0))
+                                               exhaustive=True, wall_s=0.0))
             b["shards"] += 1
+            b["counted"] = b.get("counted", 0) + st.get("counted_distinct", 0)
             b["evaluations"] += st["evaluations"]
-            b["exhaustive"] = b["exhaustive"] or st.get("exhaustive", False)
+            b["exhaustive"] = b["exhaustive"] and st.get("exhaustive", False)
             b["wall_s"] = round(max(b["wall_s"], r["wall"]), 1)
             if "extra" in st:
                 b.setdefault("extra", st["extra"])
@@ -290,8 +291,8 @@ class Check:
                 data = open(fp, "rb").read()
                 mv = memoryview(data).cast("Q") if len(data) % 8 == 0 and data else []
                 seen.update(mv)
-            by_unit[label]["distinct_nontrivial"] = len(seen)
-            distinct += len(seen)
+            by_unit[label]["distinct_nontrivial"] = len(seen) + by_unit[label].get("counted", 0)
+            distinct += by_unit[label]["distinct_nontrivial"]
         return ev, distinct, classes, excluded, samples, list(by_unit.values())
 
     def write_evidence(self):
